@@ -73,7 +73,8 @@ Theorem C08_no_oob_raw_word : forall r i, (exists v, raw_word r i = Ok v) \/ raw
 Proof. exact ok_or_raw_word. Qed.
 Print Assumptions C08_no_oob_raw_word.
 Theorem C08_no_oob_raw_set_bit : forall r i v,
-  (exists r', raw_set_bit r i v = Ok r') \/ raw_set_bit r i v = Panic PIndex.
+  (rlen r <= i -> raw_set_bit r i v = Panic PAssert) /\
+  (i < rlen r -> (exists r', raw_set_bit r i v = Ok r') \/ raw_set_bit r i v = Panic PIndex).
 Proof. exact ok_or_raw_set_bit. Qed.
 Print Assumptions C08_no_oob_raw_set_bit.
 Theorem C08_no_oob_raw_push_pop_bit : forall r v,
